@@ -214,3 +214,46 @@ Proof.
   unfold P, Op_Corr.model_obs, c_cfg, c_acts, c_obs, trace. cbn [fst snd].
   pose proof (steps_ok_from cfg acts init init_inv) as H. exact H.
 Qed.
+
+(* ---- time passing ----
+   Between two actions any amount of time may pass: every worker polls its empty queue, waits
+   in its handler or in its back-off delay; nothing in the state changes.  The harness renders
+   "the operator is left alone for a while" as a tick of a crontab no enabled binding uses;
+   this is a stutter step of every reachable state (and so is a whole idle period made of them):
+   what an idle period may or may not do is exactly what the other theorems say about the state. *)
+Lemma advance_all_quiet cfg qok : forall qs sh,
+  Forall quiescent_q qs -> Forall delay_running qs -> advance_all cfg qok qs sh = (qs, sh).
+Proof.
+  induction qs as [|q r IH]; intros sh Hq Hd; [reflexivity|].
+  inversion Hq as [|? ? Q1 Q2]; inversion Hd as [|? ? D1 D2]; subst. cbn [advance_all].
+  destruct (is_running q) eqn:R.
+  - now rewrite (IH sh Q2 D2).
+  - destruct Q1 as [Q1|Q1]; [congruence|]. rewrite Q1. unfold fuel_for. cbn [fold_right]. change (advance_q 1 cfg qok [] sh) with (@nil task, @None bool, sh).
+    cbv iota beta. rewrite (IH sh Q2 D2). f_equal. f_equal.
+    destruct q as [nm items run dl]. cbn in *. subst items.
+    unfold is_running in R. cbn in R. destruct run; [discriminate|].
+    destruct dl; [|reflexivity]. unfold delay_running, is_running in D1. cbn in D1. specialize (D1 eq_refl). discriminate.
+Qed.
+
+Lemma advance_quiet cfg s : Inv s -> advance cfg s = s.
+Proof.
+  intros [_ _ Hq Hd]. unfold advance. destruct (stopped s) eqn:St; [reflexivity|].
+  rewrite (advance_all_quiet cfg _ (queues s) _ (Hq eq_refl) Hd).
+  destruct s; cbn in *. now subst.
+Qed.
+
+Theorem time_is_stutter cfg s c : Inv s -> sched_tasks cfg (sched_on s) c = [] -> step cfg s (Tick c) = s.
+Proof.
+  intros HI E. unfold step. rewrite E. cbn [append_tasks fold_left].
+  replace (mkSt (queues s) (sched_on s) (unlocked s) (mon_started s) (stopped s)) with s by (now destruct s).
+  apply advance_quiet, HI.
+Qed.
+
+(* an idle period of any length, after any history *)
+Theorem idle_period_is_stutter cfg acts c n :
+  let s := exec cfg acts init in
+  sched_tasks cfg (sched_on s) c = [] -> exec cfg (repeat (Tick c) n) s = s.
+Proof.
+  intros s E. induction n as [|n IH]; [reflexivity|]. cbn [repeat exec fold_left].
+  rewrite (time_is_stutter cfg s c (reachable_inv cfg acts) E). exact IH.
+Qed.
